@@ -5,6 +5,21 @@ from pathlib import Path
 VERIF = Path(__file__).resolve().parents[2]
 
 CLAIMED = {
+    'C01': dict(
+        category='proof',
+        text='Theorem (by induction on the evaluation fuel and over the inputs): under the invariant "memory and store '
+             'hold only denotations", Task.value returns the reference denotation of the task - run applied to its '
+             'persisted parameters and to the denotations of its inputs - whether computed, held in memory or loaded from '
+             'storage written by anyone, and re-establishes the invariant; every operation of a process lifetime (requests '
+             'in any order, forcing with deletion/recomputation, inspection, failing runs) preserves it; restarts keep the '
+             'store half; builds do not touch the store. Tied to the code by differential histories over one data directory '
+             'with forked processes (every value, the run log and the directory listing after every step); the oracle is an '
+             'independent reference evaluator of the configuration.',
+        note='the theorems take "objects with one location denote one value" (supplied by C03 under no-collision of SHA-256) '
+             'and well-founded inputs (C08) as explicit hypotheses; run-argument binding by name and non-JSON data classes are '
+             'not yet in the history model; parameter mode only',
+        technique='Coq proof (invariant over a fuelled evaluator, mutual inductive denotation) + differential histories via vm_compute',
+        ref='DESIGN.md section 5, C01'),
     'C02': dict(
         category='proof',
         text='Theorems that the key text (hence the location, C12) is invariant under: permuting parameter declarations, '
@@ -18,6 +33,29 @@ CLAIMED = {
              'are insertion-ordered in the code (refuted example in the file, known finding K2, not yet replayed)',
         technique='Coq proof (sorted-permutation uniqueness, sort/map commutation) + differential correspondence via vm_compute',
         ref='DESIGN.md section 5, C02'),
+    'C04': dict(
+        category='proof',
+        text='Theorems about the evaluation machine: a result held by the task object is served with no change at all; a '
+             'stored, unforced result is loaded with the run log, every other task object and every existing file unchanged '
+             '(only the task directory is created); a successful request leaves the value in memory so the run executes at '
+             'most once per task object; the run log is only appended; builds, has_data, flags, forcing without recompute, '
+             'restarts run nothing. Correspondence: force-free histories with restarts and mixed histories; oracle: no '
+             'location runs twice, a stored result runs nothing, runs of a request are upstream of it, inspection runs nothing.',
+        note='at-most-once per storage LOCATION across objects and processes is checked by the oracle and follows from '
+             'load-if-stored; it is not yet stated as a single history theorem (needs an acyclicity hypothesis on locations)',
+        technique='Coq proof (case analysis of the fuelled evaluator, fold invariants) + differential histories via vm_compute',
+        ref='DESIGN.md section 5, C04'),
+    'C07': dict(
+        category='proof',
+        text='Theorems: Task.force empties and marks exactly one object; delete_data removes nothing but that object\'s own '
+             'result; Chain.force marks exactly the closure, which is the named tasks plus everything reachable along '
+             'input->dependant arcs (closure proved sound and complete), all other objects keep their state; a forced object '
+             'runs again although a result is stored, its value then stays in memory and later requests are memory hits; '
+             'unforced objects are served from storage. Correspondence: histories rich in force/force_chain with all flag '
+             'combinations plus is_forced/has_data inspection; oracle recomputes closures from observed edges and counts runs.',
+        note='recompute iterates a Python set: order is arbitrary, compared as a multiset per operation',
+        technique='Coq proof (reachability closure, fold over forced objects) + differential histories via vm_compute',
+        ref='DESIGN.md section 5, C07'),
     'C08': dict(
         category='proof',
         text='Theorems about the chain-construction model: a config contributes exactly its listed, non-abstract, '
